@@ -1,4 +1,5 @@
 mod core;
+mod gen_src;
 mod gen_val;
 mod rng;
 mod tables;
@@ -13,6 +14,15 @@ fn main() -> anyhow::Result<()> {
         Some("val") => {
             let kind = a.rest.first().cloned().unwrap_or_else(|| "keep-sorted".into());
             let rows = core::par_cases(a.n, a.seed, |ctx, seed, i| gen_val::generate(ctx, seed, i, &kind));
+            core::write_out(&a.out, &rows)
+        }
+        Some("unbalanced") => {
+            let rows = core::par_cases(a.n, a.seed, |ctx, seed, i| gen_src::generate_unbalanced(ctx, seed, i));
+            core::write_out(&a.out, &rows)
+        }
+        Some("src") => {
+            let mode = a.rest.first().cloned().unwrap_or_else(|| "blocks".into());
+            let rows = core::par_cases(a.n, a.seed, |ctx, seed, i| gen_src::generate(ctx, seed, i, &mode));
             core::write_out(&a.out, &rows)
         }
         _ => {
